@@ -235,6 +235,10 @@ def run(rep):
     import core
     core.import_rules(rep, "c01", {"REWRITE-CONST", "PASS-ARMS", "LINEAR"})
     core.import_rules(rep, "c07", {"FLAG"})
+    # an optimised rule is serialised from its raw parts, so the reloaded copy is the unoptimised rule: the matrix form has to mean what the
+    # written or-group means (one cell per column, cells compare against literals only, synthetic keys stay inside cells)
+    core.import_rules(rep, "c03", {"L-MATRIX"})
+    core.import_rules(rep, "c16", {"PROV-SYNTH"})
     rep.floor("T-SERDE-OUT", 3)
     rep.floor("T-SERDE-IN", 4)
     rep.floor("RAW=PARSED", 8)
